@@ -118,6 +118,77 @@ func (c *Ctx) dispatch(fn *ssa.Function) []dispatchArm {
 			}
 		}
 	}
+	// a table of handlers indexed by the packet type — err =
+	// inboundHandlers[head>>4](c), the table a package-level array of function
+	// values that only its initialiser writes — stands for one arm per entry: a
+	// method expression is the arm that calls that method, a literal that
+	// returns a sentinel is the arm that assigns it
+	for _, b := range c.regionBlocks(fn) {
+		for _, ins := range b.Instrs {
+			call, ok := ins.(*ssa.Call)
+			if !ok || call.Call.IsInvoke() {
+				continue
+			}
+			ld, ok := call.Call.Value.(*ssa.UnOp)
+			if !ok || ld.Op != token.MUL {
+				continue
+			}
+			ia, ok := ld.X.(*ssa.IndexAddr)
+			if !ok || !c.isTypeNibble(ia.Index, 0) {
+				continue
+			}
+			g, ok := ia.X.(*ssa.Global)
+			if !ok {
+				continue
+			}
+			tab, ok := c.constTable(g)
+			if !ok {
+				continue
+			}
+			for k, v := range tab {
+				if have[k] {
+					continue
+				}
+				var f *ssa.Function
+				switch x := v.(type) {
+				case *ssa.Function:
+					f = x
+				case *ssa.MakeClosure:
+					f, _ = x.Fn.(*ssa.Function)
+				case *ssa.ChangeType:
+					f, _ = x.X.(*ssa.Function)
+				}
+				if f == nil {
+					continue
+				}
+				arm := dispatchArm{Type: k, Pos: call.Pos()}
+				// what the entry does: call one method of the package, or return a sentinel
+				for _, fb := range f.Blocks {
+					for _, fi := range fb.Instrs {
+						switch y := fi.(type) {
+						case *ssa.Call:
+							if sc := y.Call.StaticCallee(); sc != nil && load.TopLevel(sc).Pkg == c.P.Root && arm.Handler == nil {
+								arm.Handler = sc
+							}
+						case *ssa.Return:
+							if len(y.Results) == 1 {
+								if u, isU := y.Results[0].(*ssa.UnOp); isU && u.Op == token.MUL {
+									if sg, isG := u.X.(*ssa.Global); isG {
+										arm.Sentinel = sg
+									}
+								}
+							}
+						}
+					}
+				}
+				if arm.Handler != nil {
+					arm.Sentinel = nil
+				}
+				arms = append(arms, arm)
+				have[k] = true
+			}
+		}
+	}
 	sort.SliceStable(arms, func(i, j int) bool { return arms[i].Type < arms[j].Type })
 	return arms
 }
@@ -262,7 +333,16 @@ func (c *Ctx) isTypeNibble(v ssa.Value, depth int) bool {
 			return false
 		}
 		n, ok := intConst(x.Y)
-		return ok && n == 4
+		if !ok || n != 4 {
+			return false
+		}
+		// (the type nibble of the acknowledgement that is owed is not the packet being dispatched)
+		if u, isLoad := strip(x.X).(*ssa.UnOp); isLoad && u.Op == token.MUL {
+			if ia, isIA := u.X.(*ssa.IndexAddr); isIA && roleKey(ia.X) == "Client.pendingAck" {
+				return false
+			}
+		}
+		return true
 	case *ssa.Call:
 		f := x.Call.StaticCallee()
 		if f == nil || !c.isNewHelper(f) {
